@@ -487,3 +487,93 @@ end
 
 end
 end MT.Render
+
+/-! ### the generated classes respect the size limit (C06, "the TypedDict classes rendered into the stub") -/
+
+namespace MT.Render
+open MT
+
+theorem fieldsT_length (nm : Names) (sm : Ty → List (List String)) : ∀ fs : List (String × Ty), (fieldsT nm sm fs).length = fs.length
+  | [] => rfl
+  | (_, _) :: fs => by simp [fieldsT, fieldsT_length nm sm fs]
+
+mutual
+/-- every class generated for a type whose TypedDicts have at most `k` keys declares at most `k` fields of its own, and a
+    `NonTotal` subclass together with its base (the class emitted just before its optional fields' classes) at most `k` -/
+theorem classesT_fields_le (nm : Names) (sm : Ty → List (List String)) (k : Nat) : ∀ (hint : String) (t : Ty), t.tdOk k = true →
+    ∀ d ∈ classesT nm sm hint t, d.fields.length ≤ k
+  | _, .any, _, d, hd | _, .cls _, _, d, hd | _, .typeOf _, _, d, hd | _, .callable, _, d, hd => by simp [classesT] at hd
+  | hint, .list a, h, d, hd | hint, .set a, h, d, hd | hint, .iterator a, h, d, hd | hint, .tupleOf a, h, d, hd => by
+      simp only [Ty.tdOk] at h; simp only [classesT] at hd; exact classesT_fields_le nm sm k hint a h d hd
+  | hint, .dict a b, h, d, hd | hint, .ddict a b, h, d, hd => by
+      simp only [Ty.tdOk, Bool.and_eq_true] at h
+      simp only [classesT, List.mem_append] at hd
+      rcases hd with hd | hd
+      · exact classesT_fields_le nm sm k hint a h.1 d hd
+      · exact classesT_fields_le nm sm k _ b h.2 d hd
+  | hint, .generator a b c, h, d, hd => by
+      simp only [Ty.tdOk, Bool.and_eq_true] at h
+      simp only [classesT, List.mem_append] at hd
+      rcases hd with (hd | hd) | hd
+      · exact classesT_fields_le nm sm k hint a h.1.1 d hd
+      · exact classesT_fields_le nm sm k _ b h.1.2 d hd
+      · exact classesT_fields_le nm sm k _ c h.2 d hd
+  | hint, .tuple ts, h, d, hd | hint, .union ts, h, d, hd => by
+      simp only [Ty.tdOk] at h; simp only [classesT] at hd; exact classesTL_fields_le nm sm k hint 0 ts h d hd
+  | hint, .td req opt, h, d, hd => by
+      simp only [Ty.tdOk, Bool.and_eq_true, decide_eq_true_eq] at h
+      obtain ⟨⟨⟨_, hle⟩, hr⟩, ho⟩ := h
+      match req, opt, hd, hle, hr, ho with
+      | [], [], hd, _, _, _ => simp [classesT] at hd
+      | r :: rs, [], hd, hle, hr, _ =>
+        simp only [classesT, List.mem_append, List.mem_singleton] at hd
+        rcases hd with hd | rfl
+        · exact classesF_fields_le nm sm k (r :: rs) hr d hd
+        · simp only [fieldsT_length]; simpa using hle
+      | [], o :: os, hd, hle, _, ho =>
+        simp only [classesT, List.mem_append, List.mem_singleton] at hd
+        rcases hd with hd | rfl
+        · exact classesF_fields_le nm sm k (o :: os) ho d hd
+        · simp only [fieldsT_length]; simpa using hle
+      | r :: rs, o :: os, hd, hle, hr, ho =>
+        simp only [classesT, List.mem_append, List.mem_singleton] at hd
+        rcases hd with ((hd | rfl) | hd) | rfl
+        · exact classesF_fields_le nm sm k (r :: rs) hr d hd
+        · simp only [fieldsT_length]; simp only [List.length_cons] at hle ⊢; omega
+        · exact classesF_fields_le nm sm k (o :: os) ho d hd
+        · simp only [fieldsT_length]; simp only [List.length_cons] at hle ⊢; omega
+theorem classesTL_fields_le (nm : Names) (sm : Ty → List (List String)) (k : Nat) : ∀ (hint : String) (i : Nat) (ts : List Ty),
+    tdOkL k ts = true → ∀ d ∈ classesTL nm sm hint i ts, d.fields.length ≤ k
+  | _, _, [], _, d, hd => by simp [classesTL] at hd
+  | hint, i, t :: ts, h, d, hd => by
+      simp only [tdOkL, Bool.and_eq_true] at h
+      simp only [classesTL, List.mem_append] at hd
+      rcases hd with hd | hd
+      · exact classesT_fields_le nm sm k _ t h.1 d hd
+      · exact classesTL_fields_le nm sm k hint (i + 1) ts h.2 d hd
+theorem classesF_fields_le (nm : Names) (sm : Ty → List (List String)) (k : Nat) : ∀ (fs : List (String × Ty)),
+    tdOkF k fs = true → ∀ d ∈ classesF nm sm fs, d.fields.length ≤ k
+  | [], _, d, hd => by simp [classesF] at hd
+  | (s, t) :: fs, h, d, hd => by
+      simp only [tdOkF, Bool.and_eq_true] at h
+      simp only [classesF, List.mem_append] at hd
+      rcases hd with hd | hd
+      · exact classesT_fields_le nm sm k s t h.1 d hd
+      · exact classesF_fields_le nm sm k fs h.2 d hd
+end
+
+/-- a mixed TypedDict: the `NonTotal` subclass and the base it names declare, together, exactly the keys of the TypedDict -/
+theorem mixed_td_total_keys (nm : Names) (sm : Ty → List (List String)) (hint : String) (r : String × Ty) (rs : List (String × Ty))
+    (o : String × Ty) (os : List (String × Ty)) :
+    ∃ base sub, base ∈ classesT nm sm hint (.td (r :: rs) (o :: os)) ∧ sub ∈ classesT nm sm hint (.td (r :: rs) (o :: os)) ∧
+      sub.base = some base.name ∧ sub.name = refName hint (r :: rs) (o :: os) ∧
+      base.fields.length + sub.fields.length = (r :: rs).length + (o :: os).length := by
+  refine ⟨{ name := tdClassName hint, base := none, total := true, fields := fieldsT nm sm (r :: rs) },
+          { name := tdClassName hint ++ "NonTotal", base := some (tdClassName hint), total := false, fields := fieldsT nm sm (o :: os) },
+          ?_, ?_, rfl, ?_, ?_⟩
+  · simp [classesT]
+  · simp [classesT]
+  · simp [refName]
+  · simp [fieldsT_length]
+
+end MT.Render
